@@ -1,5 +1,6 @@
 """C05 -- lazy and eager reading are observationally equivalent."""
 import itertools
+import os
 import z3
 from vlib.harness import Harness, Exc
 from vlib.zutil import TI, TB, z_and, z_or
@@ -71,7 +72,8 @@ class LockStep(Harness):
                                                                                "replace_twice", "single"):
                     continue
                 out.append(dict(f, file=name, prog=p))
-                if tier == "thorough" and name in ("bed3", "fastq"):
+                if tier == "thorough" and name in ("bed3", "fastq") and not any(op[0] == "write" for op in prog):
+                    # (lazy writes keep the source line ends, eager writes are canonical: written bytes are compared for canonical sources only)
                     out.append(dict(f, file=name, prog=p, crlf=True))
         return out
 
@@ -201,4 +203,211 @@ class LockStep(Harness):
         return None
 
 
-HARNESSES = [LockStep()]
+# ---------------------------------------------------------------------------------------------------------------------
+# generated operation sequences over two registers
+SLICES = [(1, None, None), (None, 2, None), (None, None, 2), (None, None, -1)]
+OPS_DELIM = [("len",), ("get", 0), ("get", 1), ("get", 2), ("slice", 0), ("slice", 1), ("slice", 2), ("slice", 3), ("mask",), ("ilist",),
+             ("single",), ("swap",), ("concat",), ("replace", 0), ("replace", 1), ("tolist",), ("write",)]
+OPS_SEQ = [op for op in OPS_DELIM if op[0] != "replace"]
+SEQ_FILES = {
+    "bed3": dict(fmt="bed3", rows=[[1, 2, 1], [2, 1, 2], [1, 1, 1]]),
+    "bed6": dict(fmt="bed6", rows=[[1, 1, 2, 1, 1, 1], [2, 2, 1, 2, 2, 1], [1, 1, 1, 1, 1, 1]]),
+    "fastq": dict(fmt="fastq", records=[[1, 2], [2, 1], [1, 3]]),
+    "fasta2": dict(fmt="fasta2", records=[[1, 2], [2, 1], [1, 3]]),
+}
+
+
+def gen_programs(ops, max_len, sample, seed, full_len):
+    """all op sequences up to full_len, plus `sample` pseudo-random sequences of each length full_len+1..max_len"""
+    import random
+    out = [[]]
+    for L in range(1, full_len + 1):
+        out += [list(p) for p in itertools.product(ops, repeat=L)]
+    rnd = random.Random(1000 + seed)
+    for L in range(full_len + 1, max_len + 1):
+        seen = set()
+        while len(seen) < sample:
+            seen.add(tuple(rnd.choice(ops) for _ in range(L)))
+        out += [list(p) for p in sorted(seen)]
+    # drop sequences that are trivially redundant: swap twice in a row, or nothing observable before a trailing swap
+    keep = []
+    for p in out:
+        if any(p[i][0] == "swap" and p[i + 1][0] == "swap" for i in range(len(p) - 1)):
+            continue
+        if p and p[-1][0] == "swap":
+            continue
+        keep.append(p)
+    return keep
+
+
+# directed sequences: the two registers get different histories before they are concatenated
+DIRECTED = [
+    [("swap",), ("replace", 0), ("swap",), ("concat",)],                 # field replaced on the second operand only
+    [("replace", 0), ("swap",), ("replace", 1), ("concat",)],            # different fields replaced on the operands
+    [("replace", 0), ("swap",), ("replace", 0), ("swap",), ("concat",)],  # same field replaced on both
+    [("get", 1), ("concat",)], [("swap",), ("get", 1), ("swap",), ("concat",)], [("get", 0), ("swap",), ("get", 2), ("concat",)],
+    [("slice", 0), ("get", 1), ("swap",), ("slice", 1), ("concat",), ("get", 1)],
+    [("concat",), ("swap",), ("concat",)], [("concat",), ("concat",), ("get", 2)],
+    [("slice", 0), ("swap",), ("mask",), ("concat",), ("replace", 0)],
+    [("write",), ("get", 1), ("slice", 3), ("write",), ("get", 0)],
+    [("ilist",), ("get", 2), ("write",), ("get", 0)],
+    [("replace", 1), ("slice", 2), ("swap",), ("concat",), ("slice", 3)],
+]
+
+
+class _ConcreteText:
+    """view of the inputs in which every cell that is not part of an integer column is a fixed letter"""
+    def __init__(self, skel, x):
+        self.x = x
+        self.int_cols = None
+        if not is_seq(skel):
+            self.int_cols = {c for c, (nm, kind) in enumerate(F.FORMATS[skel["fmt"]]["cols"]) if kind in ("int", "oint")}
+            self.kinds = [kind for nm, kind in F.FORMATS[skel["fmt"]]["cols"]]
+
+    def __getitem__(self, k):
+        if k[0] == "c" and self.int_cols is not None and "_" in k:
+            parts = k[1:].split("_")
+            if len(parts) == 3 and all(p.isdigit() for p in parts) and int(parts[1]) not in self.int_cols:
+                if self.kinds[int(parts[1])] == "strand":
+                    return (43, 45, 46)[int(parts[0]) % 3]
+                return 97 + (int(parts[0]) + int(parts[2])) % 3
+            return self.x[k]
+        if self.int_cols is None and k[:2] in ("qn", "qs", "qq"):
+            return 65
+        return self.x[k]
+
+
+class OpSequences(LockStep):
+    """every sequence of public operations up to a length bound, on two registers t and u (both start as the table read from the file):
+    ops act on t; swap exchanges t and u; concat sets t = concatenate([t, u]); every program ends with 'observe all fields of t, write t'"""
+    name = "op_sequences"
+    bounds = {"quick": "BED3/BED6/FASTQ/two-line FASTA, 3 records with symbolic bytes; ALL sequences of length <= 2 over 17 operations "
+                       "{len, get field 0/1/2, 4 slices, symbolic mask, symbolic integer list, single index, swap registers, "
+                       "concatenate([t,u]), replace int column 0/1 with symbolic values, tolist, write} for BED3 (length <= 1 for the other formats) "
+                       "plus a seeded sample of length 3-4 sequences; each followed by 'observe every field, write'",
+              "thorough": "all sequences of length <= 3 for BED3, <= 2 for the other formats, plus larger samples of length 4-6"}
+    job_timeout_s = 300
+
+    def skeletons(self, tier, seed):
+        out = []
+        for name, f in SEQ_FILES.items():
+            ops = OPS_SEQ if is_seq(f) else OPS_DELIM
+            if tier == "quick":
+                full, mx, sample = (2, 4, 30) if name == "bed3" else (1, 3, 12)
+            else:
+                full, mx, sample = (3, 6, 400) if name == "bed3" else (2, 5, 150)
+            progs = gen_programs(ops, mx, sample, seed, full)
+            if not is_seq(f):
+                progs += [p for p in DIRECTED if p not in progs]
+            else:
+                progs += [p for p in DIRECTED if not any(o[0] == "replace" for o in p) and p not in progs]
+            for prog in progs:
+                out.append(dict(f, file=name, ops=[list(op) for op in prog]))
+        return out
+
+    def _run(self, skel, x, ctx, lazy):
+        from bionumpy.io.parser import NumpyFileReader, NpBufferedWriter
+        from bionumpy.io.npdataclassreader import NpDataclassReader
+        from bionumpy.bnpdataclass import replace
+        B = F.get_seq_buffer(skel["fmt"]) if is_seq(skel) else F.get_buffer(skel["fmt"])
+        if any(o[0] == "tolist" for o in skel["ops"]):
+            x = _ConcreteText(skel, x)      # tolist() renders text as Python str: the text cells are concrete in these programs
+        content = F.seq_content(skel, x) if is_seq(skel) else F.content(skel, x)
+        parent = NpDataclassReader(NumpyFileReader(ctx.file(content), B), lazy=lazy).read()
+        t = u = parent
+        obs = []
+        nrep = nmask = nil = 0
+        cols = F.FORMATS[skel["fmt"]]["cols"] if not is_seq(skel) else None
+        fields = [nm for nm, _ in cols] if cols else (["name", "sequence", "quality"] if skel["fmt"] == "fastq" else ["name", "sequence", "sequence"])
+        raw = lambda v: ctx.lst(v.raw()) if hasattr(v, "raw") else ctx.lst(v)
+        for op in [tuple(o) for o in skel["ops"]] + [("obs",), ("write",)]:
+            try:
+                k = op[0]
+                if k == "obs":
+                    obs.append(("obs", observe_table(ctx, skel, t)))
+                elif k == "len":
+                    obs.append(("len", len(t)))
+                elif k == "get":
+                    obs.append(("get", raw(getattr(t, fields[op[1]]))))
+                elif k == "slice":
+                    t = t[slice(*SLICES[op[1]])]
+                elif k == "mask":
+                    bits = [x[f"m{nmask}_{i}"] for i in range(len(t))]
+                    nmask += 1
+                    t = t[ctx.arr(bits, "int64") == 1]
+                    obs.append(("maskbits", [bool(b == 1) for b in bits]))
+                elif k == "ilist":
+                    idx = [x[f"i{nil}_{j}"] for j in range(2)]
+                    nil += 1
+                    if ctx.mode != "plain" and any(o[0] == "tolist" for o in skel["ops"]):
+                        from symnp import ENGINE
+                        idx = [ENGINE.concretize(v) if hasattr(v, "t") else v for v in idx]   # text gathered by a symbolic index is symbolic
+                    if not all(bool(v < len(t)) for v in idx):
+                        obs.append(("skip", "index out of range for this table")); break
+                    t = t[ctx.arr(idx, "int64")]
+                elif k == "single":
+                    if len(t) == 0:
+                        obs.append(("skip", "empty table")); break
+                    e = t[len(t) - 1]
+                    obs.append(("entry", {f: raw(getattr(e, f)) for f in fields}))
+                elif k == "swap":
+                    t, u = u, t
+                elif k == "concat":
+                    t = ctx.np.concatenate([t, u])
+                elif k == "replace":
+                    col = INTCOL[skel["file"]][op[1]]
+                    t = replace(t, **{col: ctx.arr([x[f"new{nrep}_{j}"] for j in range(len(t))], "int64")})
+                    nrep += 1
+                elif k == "tolist":
+                    rows = t.tolist()
+                    ints = [nm for nm, kind in cols if kind in ("int", "oint")] if cols else []
+                    obs.append(("tolist", [len(rows), [[getattr(r, nm) for nm in ints] for r in rows]]))
+                elif k == "write":
+                    f = ctx.wfile()
+                    NpBufferedWriter(f, B).write(t)
+                    obs.append(("written", ctx.file_bytes(f)))
+            except Exception as e:
+                if os.environ.get("VERIF_DEBUG"):
+                    import traceback
+                    traceback.print_exc()
+                obs.append(("raised", None))
+                break
+        return obs
+
+    def inputs(self, skel, V):
+        n = len(skel.get("records", skel.get("rows")))
+        if is_seq(skel):
+            F.declare_seq(V, skel)
+        else:
+            F.declare_cells(V, skel)
+            for r, widths in enumerate(skel["rows"]):
+                for c, (nm, kind) in enumerate(F.FORMATS[skel["fmt"]]["cols"]):
+                    if kind in ("int", "oint") and widths[c] > 1:
+                        V.assume(V.vars[f"c{r}_{c}_0"].t != 48)
+        # table sizes grow by concatenation: bound by n * 2^(#concat)
+        ops = [tuple(o) for o in skel["ops"]]
+        size = n * 2 ** sum(1 for o in ops if o[0] == "concat")
+        for k in range(sum(1 for o in ops if o[0] == "mask")):
+            for i in range(size):
+                V.int(f"m{k}_{i}", 0, 1)
+        for k in range(sum(1 for o in ops if o[0] == "ilist")):
+            for j in range(2):
+                V.int(f"i{k}_{j}", 0, n - 1)
+        for k in range(sum(1 for o in ops if o[0] == "replace")):
+            for j in range(size):
+                V.int(f"new{k}_{j}", 0, 12)
+
+    def oracle(self, skel, cx, cout):
+        if isinstance(cout, Exc):
+            return f"raised {cout}"
+        if cout["lazy"] != cout["eager"]:
+            text = bytes(F.seq_content(skel, cx) if is_seq(skel) else F.content(skel, cx))
+            k = next((i for i, (a, b) in enumerate(zip(cout["lazy"], cout["eager"])) if a != b), min(len(cout["lazy"]), len(cout["eager"])))
+            la = cout["lazy"][k] if k < len(cout["lazy"]) else None
+            ea = cout["eager"][k] if k < len(cout["eager"]) else None
+            return (f"file {text!r}, operations {skel['ops']} then observe, write (t, u start as the table read): observation {k} differs: "
+                    f"lazy {la!r} vs eager {ea!r}")
+        return None
+
+
+HARNESSES = [LockStep(), OpSequences()]
